@@ -344,10 +344,12 @@ class FixedArray
                 boost::python::throw_error_already_set();
             }
             // e can be -1 if the iteration is backwards with a negative slice operator [::-n] (n > 0).
-            if (s < 0 || e < -1 || sl < 0) {
+            // For an empty backward slice (e.g. a[::-1] on an empty array, or a start below
+            // the range) s is -1 as well; the start is then never used.
+            if ((sl > 0 && s < 0) || e < -1 || sl < 0) {
                 throw std::domain_error("Slice extraction produced invalid start, end, or length indices");
             }
-            start = s;
+            start = (sl > 0) ? s : 0;
             end = e;
             slicelength = sl;
         } else if (PyInt_Check(index)) {
